@@ -80,6 +80,10 @@ func (in *Interp) initAll() {
 	in.phase = 0
 	in.syncUses = nil
 	in.pools = nil
+	in.syncMaps = nil
+	in.openFiles = nil
+	in.testFailed, in.testMsg = false, ""
+	in.vfs = nil
 	in.nondetUses = nil
 	in.MapOrder = in.cfg.MapOrder
 }
